@@ -53,6 +53,12 @@ def load_known():
     return json.load(open(p))['findings']
 
 
+def _sig_eq(got, want):
+    if isinstance(want, dict) and set(want) == {'any_of'}:
+        return got in want['any_of']
+    return got == want
+
+
 def match_known(v, known):
     """explained-by matching: every key of the finding's signature must be present in the
     violation record with exactly that value"""
@@ -60,7 +66,7 @@ def match_known(v, known):
         if f.get('status') != 'known' or f['property'] != v.prop:
             continue
         sig = f['signature']
-        if all(k in v.sig and v.sig[k] == val for k, val in sig.items()):
+        if all(k in v.sig and _sig_eq(v.sig[k], val) for k, val in sig.items()):
             return f
     return None
 
